@@ -173,6 +173,77 @@ def loop_heads(body):
     return heads
 
 
+def insert_await_asserts(body, inv, skip=None):
+    """Rule X12: `assert(inv)` in front of every statement that contains an `.await` — dropping the
+    future at that await leaves the state asserted here.  Markers are turned into tagged lines by emit_fn."""
+    out = body
+    pos = 0
+    k = 0
+
+    def stmt_start(text, at):
+        st = at
+        depth = 0
+        while st > 0:
+            c = text[st - 1]
+            if c in ')]':
+                depth += 1
+            elif c in '([':
+                if depth > 0:
+                    depth -= 1
+            elif c == '}' and depth == 0:
+                # a block that ended before: statement boundary, unless it is part of the same
+                # expression chain (`} else {`, `}) ...`): conservative: treat as boundary
+                break
+            elif c in ';{' and depth == 0:
+                break
+            st -= 1
+        return st
+
+    def enclosing_open_brace(text, cur):
+        d = 0
+        j = cur - 1
+        while j >= 0:
+            if text[j] == '}':
+                d += 1
+            elif text[j] == '{':
+                if d == 0:
+                    return j
+                d -= 1
+            j -= 1
+        return -1
+
+    while True:
+        m = re.search(r'\.await\b', out[pos:])
+        if not m:
+            break
+        at = pos + m.start()
+        if skip and skip in out[max(0, at - 200):at]:
+            pos = at + len('.await')
+            continue
+        cur = at
+        st = stmt_start(out, cur)
+        for _ in range(12):
+            st = stmt_start(out, cur)
+            region = out[st:cur]
+            in_arm = '=>' in region
+            at_match_brace = False
+            if st > 0 and out[st - 1] == '{':
+                head = out[stmt_start(out, st - 1):st - 1]
+                at_match_brace = bool(re.search(r'\bmatch\b', head))
+            if in_arm or at_match_brace:
+                j = enclosing_open_brace(out, cur)
+                if j <= 0:
+                    break
+                cur = j
+                continue
+            break
+        marker = '\n\x00AWAIT:%d\x00\n' % k
+        out = out[:st] + marker + out[st:]
+        pos = at + len(marker) + len('.await')
+        k += 1
+    return out, k
+
+
 def apply_rules(card, sig, body, log):
     def run(rule_name, fn, *a):
         nonlocal body
@@ -252,6 +323,9 @@ def emit_fn(card, repo, out, info, twin=False, assumed_here=False):
     log = []
     sig, body = apply_rules(card, sig, body, log)
     body = squeeze(body)
+    if card.opts.get('awaitinv'):
+        body, n_aw = insert_await_asserts(body, card.opts['awaitinv'], card.opts.get('awaitskip'))
+        log.append({'rule': 'X12', 'match': '%d await points: assert(%s)' % (n_aw, card.opts['awaitinv'])})
     if card.opts.get('rename'):
         sig = re.sub(r'\bfn\s+%s\b' % re.escape(fname), 'fn ' + card.opts['rename'], sig, count=1)
         log.append({'rule': 'PROBE', 'match': 'emitted as %s (uncalled copy carrying a property-level clause)' % card.opts['rename']})
@@ -351,6 +425,13 @@ def emit_fn(card, repo, out, info, twin=False, assumed_here=False):
                     if where == 'before':
                         # go to start of line
                         ls = seg[1].rfind('\n', 0, p) + 1
+                        # a hint placed before a statement also precedes that statement's await assertion
+                        while True:
+                            prev = seg[1][:ls].rstrip('\n')
+                            mprev = re.search(r'\x00AWAIT:\d+\x00$', prev)
+                            if not mprev:
+                                break
+                            ls = prev.rfind('\n', 0, mprev.start()) + 1
                         seg[1] = seg[1][:ls] + mark.lstrip('\n') + seg[1][ls:]
                     elif where == 'after':
                         le = seg[1].find('\n', p + len(anchor))
@@ -380,9 +461,13 @@ def emit_fn(card, repo, out, info, twin=False, assumed_here=False):
     body_hash = hashlib.sha256()
     for kind, text in hinted:
         if kind == 'body':
-            for piece in re.split(r'(\x00HINT:\w+\x00)', text):
+            for piece in re.split(r'(\x00HINT:\w+\x00|\x00AWAIT:\d+\x00)', text):
                 mm = re.match(r'\x00HINT:(\w+)\x00', piece)
-                if mm:
+                ma = re.match(r'\x00AWAIT:(\d+)\x00', piece)
+                if ma:
+                    out.add('        assert(%s);' % card.opts['awaitinv'], {'fn': fid, 'part': 'await', 'clause': 'await%s' % ma.group(1), 'tags': ['C13']})
+                    rec.setdefault('awaits', []).append('await%s' % ma.group(1))
+                elif mm:
                     out.add(hint_text[mm.group(1)].rstrip(), {'fn': fid, 'part': 'hint', 'clause': mm.group(1)})
                 else:
                     piece = piece.strip('\n') if piece.strip() == '' else piece
